@@ -91,8 +91,9 @@ CONSTANTS
   Movers,       \* SUBSET Subs: may unsubscribe / subscribe during the run
   Closers,      \* SUBSET Subs: may disconnect abruptly
   MaxMoves,     \* Nat: leave / join requests in one behaviour
-  Atomic,       \* BOOLEAN: coarse emission (snapshot + all sends in one step); only for
-                \* the schedule export without churn
+  Atomic,       \* BOOLEAN: coarse emission (snapshot + all sends in one step): the schedule
+                \* export without churn (GenPropertySteps.cfg) and the large configuration
+                \* MCPropertySteps_thorough.cfg; FALSE everywhere else
   Dev_IterateLiveSlice,
   Dev_SendErrorFailsWrite
 
